@@ -437,6 +437,27 @@ def r23f(ctx, run):
     if root and first_skip is not None and first_adv is not None and first_event is not None and first_skip < first_adv and first_skip < first_event:
         run.ok(pf.site(), "Parser::bump skips trivia before it adds the token: a bump can never add a trivia token")
         return
+    # what each Parser method leaves behind, from its own source: a method that may bump (directly or through another method) leaves the cursor
+    # behind a consumed token ("stale": expect* consume the token they expect); one that only looks (skip_trivia / peek / at ...) leaves it "fresh"
+    pm = {f.qual.rsplit("::", 1)[-1]: f for f in ctx.syn.fns_in("parser/src/parser.rs") if f.qual.startswith("Parser::") and f.body is not None and not f.in_test}
+
+    def self_calls(f):
+        return {n["m"] for n in walk(f.body) if n.get("k") == "mcall" and canon(n["r"]) == "self"}
+    may_bump, looks = {"bump"}, {"skip_trivia"}
+    changed = True
+    while changed:
+        changed = False
+        for name, f in pm.items():
+            cs = self_calls(f)
+            if name not in may_bump and cs & may_bump:
+                may_bump.add(name)
+                changed = True
+            if name not in looks and cs & looks:
+                looks.add(name)
+                changed = True
+    fresh_after = {m for m in looks if m not in may_bump}
+    if not {"at", "peek", "at_set"} <= fresh_after or "expect" not in may_bump:
+        raise LookupError("classification of Parser methods: looking=%s consuming=%s" % (sorted(fresh_after), sorted(may_bump)))
     n_fns = 0
     for f in ctx.syn.fns:
         if f.in_test or f.body is None or "parser/src/grammar" not in f.file:
@@ -454,7 +475,9 @@ def r23f(ctx, run):
                     if st != "fresh":
                         problems.append(node["ln"])
                     return "stale"
-                if node["m"] in SKIPPING_QUERIES:
+                if node["m"] in may_bump:
+                    return "stale"
+                if node["m"] in fresh_after:
                     return "fresh"
                 return st
             if k == "macro" and node["name"].rsplit("::", 1)[-1] in ("assert", "debug_assert") and "p . at" in node.get("tokens", "").replace("p.at", "p . at"):
